@@ -626,6 +626,233 @@ def d6_append(chk: Check) -> None:
                             "found")
 
 
+def _from_unescaped(fn: ast.AST) -> Set[str]:
+    """Locals holding (parts of / collections of) the unescaped parse and
+    nothing of the escaped one."""
+    t: Set[str] = set()
+    dirty: Set[str] = set()
+    for _ in range(4):
+        for n in walk_local(fn):
+            if isinstance(n, (ast.Assign, ast.AnnAssign)) and \
+                    n.value is not None:
+                tgt = n.targets[0] if isinstance(n, ast.Assign) else n.target
+                if not isinstance(tgt, ast.Name):
+                    continue
+                v = n.value
+                base = v
+                while isinstance(base, (ast.Subscript, ast.Call)) and (
+                        isinstance(base, ast.Subscript) or (
+                            isinstance(base.func, ast.Attribute) and
+                            base.func.attr in ("pop", "popleft", "copy"))):
+                    base = base.value if isinstance(base, ast.Subscript) \
+                        else base.func.value
+                if isinstance(base, ast.Attribute) and \
+                        base.attr == "unescaped":
+                    t.add(tgt.id)
+                elif isinstance(base, ast.Name) and base.id in t:
+                    t.add(tgt.id)
+                elif any(isinstance(x, ast.Attribute) and x.attr == "escaped"
+                         for x in ast.walk(v)):
+                    dirty.add(tgt.id)
+            if isinstance(n, ast.Call) and isinstance(n.func, ast.Attribute) \
+                    and n.func.attr in ("append", "appendleft") and \
+                    isinstance(n.func.value, ast.Name) and n.args:
+                a = n.args[0]
+                if isinstance(a, ast.Name) and a.id in t:
+                    t.add(n.func.value.id)
+                elif not (isinstance(a, ast.Name) and a.id in t):
+                    if n.func.value.id in t or True:
+                        # something else goes into the collection
+                        if not (isinstance(a, ast.Name) and a.id in t):
+                            dirty.add(n.func.value.id)
+    return t - dirty
+
+
+def d7_text_and_view(chk: Check) -> None:
+    """The path text is stored as given (a blank text becomes the empty
+    path, nothing else is trimmed: an escaped trailing space belongs to the
+    last key), and every rendering goes through the unescaped parse (the
+    stringifier re-adds only some escapes; the others must still be in its
+    input)."""
+    prog = chk.prog
+    chk.rule("C08-D7", "the `original` setter stores the text unchanged "
+             "unless it is blank; every call of the stringifier renders "
+             "the unescaped parse", floor=8)
+    fi = None
+    for f in prog.funcs_in("yamlpath/yamlpath.py"):
+        if f.is_setter and f.node.name == "original":
+            fi = f
+    if fi is None:
+        raise AnalysisError("YAMLPath.original setter not found")
+    chk.analysed(fi)
+    value = fi.params()[1]
+    pe = PEval()
+    for sample in ("", "   ", "a", "a\\ ", " a", "a b", "/a/b\\ "):
+        env = {"str({})".format(value): Const(sample), value: Const(sample)}
+        pe.specialise(fi.node.body, env)
+        st = [v for stmt, v in pe.stored
+              if src(stmt.targets[0]).endswith("._original")]
+        want = "" if not sample.strip() else sample
+        text = "original = {!r}".format(sample)
+        if len(st) == 1 and isinstance(st[0], Const) and st[0].value == want:
+            chk.ok("C08-D7", fi, fi.node, text, "stored as {!r}".format(want))
+        elif len(st) == 1 and isinstance(st[0], Const):
+            chk.fail("C08-D7", fi, fi.node, text,
+                     "stored as {!r}: the text of the path is altered "
+                     "(an escaped trailing space is part of the last key)"
+                     .format(st[0].value))
+        else:
+            raise AnalysisError("original setter not decided for {!r}"
+                                .format(sample))
+    n = 0
+    for f in prog.funcs_in("yamlpath/yamlpath.py"):
+        for c in walk_local(f.node):
+            if isinstance(c, ast.Call) and src(c.func).endswith(
+                    "._stringify_yamlpath_segments") and c.args:
+                n += 1
+                a0 = c.args[0]
+                if (isinstance(a0, ast.Attribute) and a0.attr == "unescaped") \
+                        or (isinstance(a0, ast.Name) and
+                            a0.id in _from_unescaped(f.node)):
+                    chk.ok("C08-D7", f, c, "{}: stringify({})".format(
+                        f.short, src(a0)), "unescaped parse")
+                else:
+                    chk.fail("C08-D7", f, c, "{}: stringify({})".format(
+                        f.short, src(a0)),
+                        "the stringifier is fed `{}`: escapes it does not "
+                        "re-add (a leading `&`, a literal backslash) are "
+                        "lost in this rendering but kept in the others"
+                        .format(src(a0)))
+    if n < 2:
+        raise AnalysisError("stringifier call sites not found")
+
+
+SPACE_SAMPLES = [("a b", "a\\ b"), ("a\\ b", "a\\ b"), ("ab", "ab"),
+                 ("a  b", "a\\ \\ b"), ("a\\ b c", "a\\ b\\ c"),
+                 (" a", "\\ a")]
+
+
+def d8_term_spaces(chk: Check) -> None:
+    """SearchTerms.__str__ renders the term of the *unescaped* parse, in
+    which a space may already carry its backslash.  Every space must leave
+    with exactly one: escaping an already escaped space again re-parses as
+    a literal backslash."""
+    prog = chk.prog
+    chk.rule("C08-D8", "the search-term writer leaves every space with "
+             "exactly one backslash, whether or not it already had one "
+             "(folded over sample terms)", floor=6)
+    fi = prog.func("SearchTerms.__str__")
+    chk.analysed(fi)
+    pe = PEval(enum_classes={"PathSearchMethods"})
+    # role: the local that receives the rendered term in the non-regex arm
+    for term, want in SPACE_SAMPLES:
+        env = {}
+        for attr in ("self.term", "self._term"):
+            env[attr] = Const(term)
+        for attr in ("self.method", "self._method"):
+            env[attr] = Enum("PathSearchMethods", "EQUALS")
+        res = pe.specialise(fi.node.body, env)
+        vals = [pe.value(st.value, env) for st in res
+                if isinstance(st, ast.Assign) and
+                isinstance(st.targets[0], ast.Name)]
+        vals = [v for v in vals if isinstance(v, Const) and
+                isinstance(v.value, str)]
+        text = "term {!r}".format(term)
+        if not vals:
+            raise AnalysisError("rendered term not decided for {!r}".format(
+                term))
+        got = vals[-1].value
+        if got == want:
+            chk.ok("C08-D8", fi, fi.node, text, "-> {!r}".format(got))
+        else:
+            chk.fail("C08-D8", fi, fi.node, text,
+                     "rendered as {!r}, expected {!r}: the canonical string "
+                     "re-parses to a different term".format(got, want))
+
+
+POP_SAMPLES = [
+    # path text, separator, kind of the last segment, its attribute text,
+    # the segment rendered alone by the stringifier, text expected after pop
+    ("a.b", ".", "KEY", "b", "b", "a"),
+    ("a[1]", ".", "INDEX", "1", "[1]", "a"),
+    ("a.[1]", ".", "INDEX", "1", "[1]", "a"),
+    ("a.&x", ".", "ANCHOR", "x", "&x", "a"),
+    ("a[&x]", ".", "ANCHOR", "x", "&x", "a"),
+    ("a.[&x]", ".", "ANCHOR", "x", "&x", "a"),
+    ("/a/b", "/", "KEY", "b", "/b", "/a"),
+    ("/a[&x]", "/", "ANCHOR", "x", "/&x", "/a"),
+    ("/a/[&x]", "/", "ANCHOR", "x", "/&x", "/a"),
+]
+
+
+def d9_pop_forms(chk: Check) -> None:
+    """pop() removes the last segment by cutting its rendering off the end
+    of the text.  A segment can end the text in several spellings (an
+    anchor after another segment is `[&name]`, alone it is `&name`; the
+    evaluator's translated paths put the separator before a bracket).  The
+    ladder that finds the suffix is folded over one sample per spelling."""
+    prog = chk.prog
+    chk.rule("C08-D9", "pop() cuts the last segment off the text in every "
+             "spelling it can have at the end of a path (folded over "
+             "samples)", floor=9)
+    fi = prog.func("YAMLPath.pop")
+    chk.analysed(fi)
+    # roles: the local compared first is `<sep><rendering>`, the rendering
+    # itself comes from the stringifier call
+    rend = None
+    for n in walk_local(fi.node):
+        if isinstance(n, ast.Assign) and isinstance(n.value, ast.Call) and \
+                src(n.value.func).endswith("_stringify_yamlpath_segments"):
+            rend = src(n.targets[0])
+    seg = None
+    for n in walk_local(fi.node):
+        if isinstance(n, (ast.Assign, ast.AnnAssign)) and n.value is not None \
+                and isinstance(n.value, ast.Call) and \
+                src(n.value.func).endswith(".pop"):
+            seg = src(n.targets[0] if isinstance(n, ast.Assign) else n.target)
+    txt = None
+    for n in walk_local(fi.node):
+        if isinstance(n, ast.Assign) and src(n.value) == "self.original":
+            txt = src(n.targets[0])
+    if not (rend and seg and txt):
+        raise AnalysisError("roles of YAMLPath.pop not found")
+    pe = PEval(enum_classes={"PathSegmentTypes", "PathSeparators"})
+    start = None
+    for i, st in enumerate(fi.node.body):
+        if isinstance(st, ast.Assign) and src(st.targets[0]) == txt:
+            start = i
+    body = fi.node.body[start + 1:] if start is not None else fi.node.body
+    # statements between the rendering and the text read still matter
+    pre = [st for st in fi.node.body[:start or 0]
+           if isinstance(st, ast.Assign) and isinstance(st.value, ast.Call)
+           and isinstance(st.value.func, ast.Attribute)
+           and st.value.func.attr == "format"]
+    for text, sep, kind, attr, alone, want in POP_SAMPLES:
+        env = {txt: Const(text), rend: Const(alone),
+               "self.separator": Const(sep), "str(self.separator)": Const(sep),
+               seg + "[0]": Enum("PathSegmentTypes", kind),
+               seg + "[1]": Const(attr)}
+        pe.specialise(pre + body, env,
+                      pinned=[txt, rend, "self", seg])
+        st = [v for stmt, v in pe.stored
+              if src(stmt.targets[0]) == "self.original"]
+        label = "pop() of {!r} ({} last)".format(text, kind)
+        if len(st) == 1 and isinstance(st[0], Const):
+            got = st[0].value
+        elif not st:
+            got = text       # no branch taken: the text is left as it was
+        else:
+            raise AnalysisError(label + " not decided by folding")
+        if got == want:
+            chk.ok("C08-D9", fi, fi.node, label, "-> {!r}".format(got))
+        else:
+            chk.fail("C08-D9", fi, fi.node, label,
+                     "leaves the text {!r}, expected {!r}: the popped "
+                     "segment stays in the path text (append-then-pop does "
+                     "not restore the path; parent() reports the child's "
+                     "path for the parent)".format(got, want))
+
+
 def run(chk: Check) -> None:
     d1_automaton(chk)
     d2_stringifier(chk)
@@ -633,3 +860,6 @@ def run(chk: Check) -> None:
     d4_equality(chk)
     d5_rearm(chk)
     d6_append(chk)
+    d7_text_and_view(chk)
+    d8_term_spaces(chk)
+    d9_pop_forms(chk)
